@@ -153,7 +153,7 @@ static DONE: std::sync::atomic::AtomicUsize = std::sync::atomic::AtomicUsize::ne
 static CUR_DET: std::sync::atomic::AtomicUsize = std::sync::atomic::AtomicUsize::new(0);
 static FINISHED: std::sync::atomic::AtomicBool = std::sync::atomic::AtomicBool::new(false);
 static PARTIAL: std::sync::Mutex<String> = std::sync::Mutex::new(String::new());
-const FILE_TIME_LIMIT_S: u64 = 90;
+const FILE_TIME_LIMIT_S: u64 = 40;
 
 // All files of the directory, analysed one after the other on a worker thread with a large stack (as the solstat
 // binary does).  If one file is not finished within FILE_TIME_LIMIT_S seconds the analysis is taken not to
